@@ -439,7 +439,7 @@ def c15_cases(u, groups, rng, tier):
 
 
 def c16_cases(u, groups, rng, tier):
-    out = c_encode_cases(u, groups, rng, tier, 'enc')
+    out = c_encode_cases(u, groups, rng, tier, 'enc') + hammer_cases(u, rng.fork('hammer'), tier)
     out += [c for c in c04_cases(u, groups, rng.fork('c16buf'), 'quick') if c[0].startswith('(encbuf')][:1500]
     out += c03_cases(u, groups, rng.fork('c16dec'), 'quick')
     return out
@@ -559,6 +559,62 @@ def c07_sessions(u, groups, rng, tier):
                 v = ValGen(u, rng.fork('o' + n), alternate=True, max_depth=4).val(st(n))     # nested pointers non-nil
                 sess.append(('(rt %s ptr %s)' % (n, val_sx(v)), {'op': 'rt', 'type': n}))
         sessions.append(sess)
+    # a decode that fails inside a container element, then a message whose first element is sparse:
+    # whatever the failed decode left in a reused temporary must not show
+    for s_ in valid_structs(u):
+        fl = [f for f in s_.sorted_fields() if f.ty[0] == 'map' and f.ty[2][0] in ('struct', 'list', 'set', 'map')]
+        if not fl or (tier == 'quick' and not (s_.name.startswith('M1') or s_.name in ('DefHolder', 'HoldNest', 'MpI32', 'MpString'))):
+            continue
+        for f in fl[:2]:
+            r = rng.fork('failthen%s%d' % (s_.name, f.fid))
+            fv = ValGen(u, r, alternate=True, max_depth=4).val(f.ty, 1)
+            if fv[0] != 'm' or len(fv[1]) < 2:
+                continue
+            def with_entries(es):
+                v = u.zero(st(s_.name))
+                fs = list(v[2])
+                fs[s_.sorted_fields().index(f)] = ('m', es)
+                vg = ValGen(u, r.fork('req'), big=False, max_depth=2)
+                for i, g in enumerate(s_.sorted_fields()):
+                    if g.req == 'required' and g is not f:
+                        fs[i] = vg.val(g.ty, 2)
+                return put_py(denote_py(u, st(s_.name), ('t', b'', fs)))
+            full = with_entries(fv[1][:1])
+            sparse = with_entries(fv[1][1:2])
+            if f.ty[2][0] == 'struct':
+                # the sparsest element of all: a struct value that carries no field at all
+                v0 = u.zero(st(s_.name))
+                fs0 = list(v0[2])
+                fs0[s_.sorted_fields().index(f)] = ('m', fv[1][1:2])
+                vg0 = ValGen(u, r.fork('req0'), big=False, max_depth=2)
+                for i, g in enumerate(s_.sorted_fields()):
+                    if g.req == 'required' and g is not f:
+                        fs0[i] = vg0.val(g.ty, 2)
+                w0 = denote_py(u, st(s_.name), ('t', b'', fs0))
+                fl0 = [(c, fid, (('mp', fw[1], fw[2], [(a, ('st', [], b'')) for a, b_ in fw[3]]) if fid == f.fid and fw[0] == 'mp' else fw))
+                       for (c, fid, fw) in w0[1]]
+                sparse = put_py(('st', fl0, w0[2]))
+            sess = []
+            for cut in (1, 2, 3):
+                if len(full) > cut + 8:
+                    sess.append(('(dec %s fresh %s)' % (s_.name, hexs(full[:-cut])), {'type': s_.name, 'op': 'dec-bad', 'shape': 'fail-in-element'}))
+                    sess.append(('(dec %s fresh %s)' % (s_.name, hexs(sparse)), {'type': s_.name, 'op': 'dec', 'shape': 'sparse-after-failure'}))
+            if sess:
+                sessions.append(sess)
+    # a valid nested type first used BY VALUE (size or encode), then a registration that fails, then the
+    # valid type again in every form: the failed build must not undo anything of the earlier one
+    nestedv = [n for n in ['StPtr', 'StVal', 'HoldNest', 'DefHolder', 'MutA', 'Rec', 'LiPLeaf', 'M1I32XPLeaf', 'NoCopyNest'] if n in u.by_name]
+    badn = [n for n in ['PQ', 'PA', 'Bad1'] + groups.get('invalid-nested', [])[:2] if n in u.by_name]
+    for i, n in enumerate(nestedv):
+        for first in ('enc', 'rt'):
+            r = rng.fork('byval%s%s' % (n, first))
+            v = ValGen(u, r, alternate=True, max_depth=4).val(st(n))
+            sess = [('(%s %s val %s)' % (first, n, val_sx(v)), {'op': first, 'type': n, 'shape': 'first-by-value'}),
+                    ('(api3 %s)' % badn[i % len(badn)], {'op': 'api3-invalid'}),
+                    ('(rt %s ptr %s)' % (n, val_sx(v)), {'op': 'rt', 'type': n}),
+                    ('(rt %s val %s)' % (n, val_sx(v)), {'op': 'rt', 'type': n}),
+                    ('(dec %s fresh %s)' % (n, hexs(put_py(denote_py(u, st(n), v)))), {'op': 'dec', 'type': n})]
+            sessions.append(sess)
     return {'sessions': sessions}
 
 
@@ -568,7 +624,12 @@ def c17_sessions(u, groups, rng, tier):
     k = 24 if tier == 'quick' else 200
     envs_pool = [None, {'FRUGAL_MAX_INLINE_DEPTH': '2'}, {'FRUGAL_MAX_INLINE_DEPTH': '7', 'FRUGAL_MAX_INLINE_IL_SIZE': '257'},
                  {'FRUGAL_MAX_INLINE_IL_SIZE': '0x7fffffff'}, {'FRUGAL_MAX_INLINE_DEPTH': '0b11'}, {'FRUGAL_MAX_INLINE_DEPTH': '1_000'},
-                 {'FRUGAL_MAX_INLINE_DEPTH': '017', 'FRUGAL_MAX_INLINE_IL_SIZE': '1000000'}, {'FRUGAL_MAX_INLINE_DEPTH': '9223372036854775807'}]
+                 {'FRUGAL_MAX_INLINE_DEPTH': '017', 'FRUGAL_MAX_INLINE_IL_SIZE': '1000000'}, {'FRUGAL_MAX_INLINE_DEPTH': '9223372036854775807'},
+                 # each valid on its own, in every relative order
+                 {'FRUGAL_MAX_INLINE_DEPTH': '1000', 'FRUGAL_MAX_INLINE_IL_SIZE': '500'},
+                 {'FRUGAL_MAX_INLINE_DEPTH': '1000000', 'FRUGAL_MAX_INLINE_IL_SIZE': '1000000'},
+                 {'FRUGAL_MAX_INLINE_DEPTH': '257', 'FRUGAL_MAX_INLINE_IL_SIZE': '257'},
+                 {'FRUGAL_MAX_INLINE_DEPTH': '2', 'FRUGAL_MAX_INLINE_IL_SIZE': '9223372036854775807'}]
     legacy = ['Pretouch', 'NoJIT', 'SetMaxInlineDepth', 'SetMaxInlineILSize', 'GetStats', 'WithOptions']
     bad = groups.get('invalid', [])[:30] + groups.get('poison', [])
     sessions, envs = [], []
@@ -587,6 +648,12 @@ def c17_sessions(u, groups, rng, tier):
             sess.append(c)
         sessions.append(sess)
         envs.append(r.pick(envs_pool))
+    # every environment of the pool at least once
+    for j, e in enumerate(envs_pool):
+        r = rng.fork('env%d' % j)
+        pool = [r.pick(names) for _ in range(3)]
+        sessions.append([('(env)', {'op': 'env'})] + [random_op(u, groups, r, pool, []) for _ in range(4)])
+        envs.append(e)
     poison = groups.get('poison', [])
     for order in [['PQ', 'PA'], ['PA', 'PQ'], ['POuter', 'POther'], ['PX', 'PZ'], ['PZ', 'PY', 'PX']]:
         sess = []
@@ -715,6 +782,21 @@ def c08_sessions(u, groups, rng, tier):
         ops.append(('(descmap %s)' % body, {'op': 'descmap'}))
     sessions.append(ops)
     sessions.append(hammer_cases(u, rng.fork('hammer'), tier))
+    # registrations that FAIL (late: nested invalid definitions reached after valid ones) overlapping
+    # with first uses of valid types: the clean-up of the failed build is under the same lock
+    bad = groups.get('poison', []) + groups.get('invalid-nested', [])
+    good = [n for n in nested + names[:40] if n in u.by_name and not u.by_name[n].invalid]
+    for h in range(8 if tier == 'quick' else 120):
+        r = rng.fork('concfail%d' % h)
+        n = r.pick([4, 8, 16])
+        cs = []
+        for j in range(n * 2):
+            if j % 2 == 0 and bad:
+                cs.append('(api3 %s)' % r.pick(bad))
+            else:
+                nm = r.pick(good)
+                cs.append('(enc %s ptr %s)' % (nm, val_sx(small_val(u, r, nm))))
+        sessions.append([('(conc %d %s)' % (n, ' '.join(cs)), {'op': 'conc-failing-registration', 'goroutines': n})])
     return {'sessions': sessions}
 
 
